@@ -13,6 +13,7 @@ from flowmark.linewrapping.tag_handling import (
 from flowmark.linewrapping.text_filling import DEFAULT_WRAP_WIDTH
 from flowmark.linewrapping.text_wrapping import (
     DEFAULT_LEN_FUNCTION,
+    markdown_escape_first_line,
     wrap_paragraph,
     wrap_paragraph_lines,
 )
@@ -160,6 +161,9 @@ def line_wrap_by_sentence(
             lines.extend(wrapped)
 
             first_line = False
+
+        if is_markdown:
+            markdown_escape_first_line(lines)
 
         # Now insert the indents and assemble the paragraph.
         if initial_indent and len(lines) > 0:
